@@ -69,6 +69,16 @@ def Fault.isShard : Fault → Nat → Bool
   | .shard j, k => j == k
   | _, _ => false
 
+/-- the fault makes a file write fail -/
+def Fault.isWrite : Fault → Bool
+  | .tcpMaps => true
+  | .frontMaps => true
+  | .backMaps => true
+  | .crtLists => true
+  | .mainCfg => true
+  | .shard _ => true
+  | _ => false
+
 def Fault.isReload : Fault → Bool
   | .reloadSend => true
   | .reloadResult => true
@@ -348,7 +358,7 @@ def post (o : Opt) (sh : Sh p) (f : Fault) (m : Mid p) : Res p :=
   if doWrite && lim.isSome then { w := commitAll w6 m.s m.hs, err := true, sends := m.sends } else
   -- past writeConfig: `i.rewriteOwed = false`; `if updated && i.reloadOwed { updated = false }`
   let w6 : FW p := { w6 with rewriteOwed := false }
-  let updated := m.updated && !(o.repaired && w6.reloadOwed)
+  let updated := m.updated && !(o.repaired && m.w.reloadOwed)
   -- 7
   if updated then { w := commitAll w6 m.s m.hs, sends := m.sends } else
   -- 8
